@@ -3,7 +3,7 @@
 //!     ver <hex of the block bytes> <query> [args] [tree=...]      (tree= is for the model side only)
 //!     verat <align16> <hex> <query> [args]
 //!
-//! queries: events | fixed | translation | value <LLLLCCCC> <key utf-16 hex> | strings <LLLLCCCC>
+//! queries: events | events_skip <n> | fixed | translation | value <LLLLCCCC> <key utf-16 hex> | strings <LLLLCCCC>
 //!        | file_info | source | langparse
 use crate::util::*;
 use pelite::image::VS_FIXEDFILEINFO;
@@ -33,11 +33,13 @@ fn parse_lang(s: &str) -> Language {
 }
 
 /// records every callback of `Visit`
-struct Recorder<'g> { g: &'g Guarded, out: Vec<String> }
+struct Recorder<'g> { g: &'g Guarded, out: Vec<String>, skip: usize }
 impl<'a, 'g> Visit<'a> for Recorder<'g> {
 	fn version_info(&mut self, key: &'a [u16], fixed: Option<&'a VS_FIXEDFILEINFO>) -> bool {
 		let f = match fixed { Some(f) => self.g.rf(f as *const _ as *const u8, 52), None => "none".to_string() };
 		self.out.push(format!("V({},{})", sl(self.g, key), f));
+		// a user visitor may decline a root: `visit` then goes on to the next one
+		if self.skip > 0 { self.skip -= 1; return false; }
 		true
 	}
 	fn file_info(&mut self, key: &'a [u16]) -> bool { self.out.push(format!("F({})", sl(self.g, key))); true }
@@ -62,7 +64,12 @@ fn run(align16: usize, rest: &str) -> String {
 	let vi = match VersionInfo::try_from(g.bytes()) { Ok(v) => v, Err(e) => return format!("err {}", errname(e)) };
 	match (a[1], a.len()) {
 		("events", 2) => {
-			let mut r = Recorder { g: &g, out: Vec::new() };
+			let mut r = Recorder { g: &g, out: Vec::new(), skip: 0 };
+			vi.visit(&mut r);
+			format!("ok {}", r.out.join(";"))
+		},
+		("events_skip", 3) => {
+			let mut r = Recorder { g: &g, out: Vec::new(), skip: num(a[2]) as usize };
 			vi.visit(&mut r);
 			format!("ok {}", r.out.join(";"))
 		},
